@@ -164,6 +164,8 @@ package tmstate
 //@ func StateMachine.beginCommit
 //@   property C08 C12 C09
 //@   requires blockQuorum(vrv.VoteSummary)
+//@   site send finalizeBlockRequestCh finalizes-the-block-with-the-precommit-quorum: bytes(sentValue.Header.Hash) == vrv.VoteSummary.MostVotedPrecommitHash &&
+//@       sentValue.Round == vrv.Round && sentValue.Resp == rlc.FinalizeRespCh
 //@   requires timers(0) == 0
 //@   ensures commit-wait-armed: rlc.S == tsi.StepCommitWait && TimerInv(rlc) && rlc.H == old(rlc.H) && rlc.R == old(rlc.R)
 //@   ensures ready-kept: old(smReady(m, rlc)) ==> smReady(m, rlc)
@@ -343,6 +345,8 @@ package tmstate
 //@ func StateMachine.handleCommitWaitViewUpdate
 //@   property C08 C12
 //@   requires TimerInv(rlc) && rlc.VRV != nil && blockQuorum(vrv.VoteSummary)
+//@   site send finalizeBlockRequestCh finalizes-the-block-with-the-precommit-quorum: bytes(sentValue.Header.Hash) == vrv.VoteSummary.MostVotedPrecommitHash &&
+//@       sentValue.Round == vrv.Round && sentValue.Resp == rlc.FinalizeRespCh
 //@   ensures stays: TimerInv(rlc) && rlc.H == old(rlc.H) && rlc.R == old(rlc.R) && rlc.S == old(rlc.S)
 //@   ensures ready-kept: old(smReady(m, rlc)) ==> smReady(m, rlc)
 //@   modifies heap
